@@ -46,10 +46,14 @@ rsync -a --delete --exclude target /verif/mc/ "$RUN/mc/"
 sed -i "s#path = \"/repo\"#path = \"$WT\"#" "$RUN/mc/Cargo.toml"
 cp "$WT/Cargo.lock" "$RUN/mc/Cargo.lock" 2>/dev/null
 mkdir -p "$RUN/v"; cp /verif/known_findings.json "$RUN/v/"
+VARENV=""; VARSFX=""
+if [ "${VARIANT:-default}" = "small" ]; then
+  VARENV="SMOLTCP_IFACE_NEIGHBOR_CACHE_COUNT=2 SMOLTCP_DNS_MAX_SERVER_COUNT=2 SMOLTCP_DNS_MAX_RESULT_COUNT=2 SMOLTCP_REASSEMBLY_BUFFER_COUNT=2 SMOLTCP_IFACE_MAX_ROUTE_COUNT=4 SMOLTCP_IFACE_MAX_ADDR_COUNT=4"; VARSFX="-small"
+fi
 for id in "${IDS[@]}"; do
   envs=""
-  ( cd "$RUN/mc" && CARGO_TARGET_DIR="$RUN/target" cargo build --release --offline >"$RUN/build.txt" 2>&1 ) || { say "SEED $SEED: harness build failed against seeded tree (see $RUN/build.txt)"; break; }
-  VERIF_DIR="$RUN/v" timeout 3000 "$RUN/target/release/mc" "$id" --tier "$TIER" >"$RUN/check_$id.txt" 2>&1
+  ( cd "$RUN/mc" && env $VARENV CARGO_TARGET_DIR="$RUN/target$VARSFX" cargo build --release --offline >"$RUN/build.txt" 2>&1 ) || { say "SEED $SEED: harness build failed against seeded tree (see $RUN/build.txt)"; break; }
+  VERIF_DIR="$RUN/v" timeout 3000 "$RUN/target$VARSFX/release/mc" "$id" --tier "$TIER" >"$RUN/check_$id.txt" 2>&1
   rc=$?
   sigs=$(grep -E "^  signature:" "$RUN/check_$id.txt" | sed 's/  signature: //' | tr '\n' ' ')
   say "SEED $SEED: check $id ($TIER) exit=$rc ${sigs:+signatures: $sigs}"
